@@ -24,7 +24,7 @@ EXPLANATION = (
     'assembly gives every positional parameter exactly one outcome; (g) '
     'Functor._on_change processes every update of a batch.  Agreement with '
     'the interpreter\'s binding rules is differential and not decided.')
-FLOORS = {'C18.a': 4, 'C18.b': 1, 'C18.c': 1, 'C18.d': 2, 'C18.e': 1, 'C18.f': 1, 'C18.g': 1, 'C18.h': 1, 'C18.i': 2}
+FLOORS = {'C18.a': 4, 'C18.b': 1, 'C18.c': 1, 'C18.d': 2, 'C18.e': 1, 'C18.f': 1, 'C18.g': 1, 'C18.h': 1, 'C18.i': 2, 'C18.j': 2, 'C18.k': 1}
 FILES = ['pyglove/core/symbolic/functor.py', 'pyglove/core/symbolic/class_wrapper.py',
          'pyglove/core/symbolic/symbolize.py', 'pyglove/core/typing/callable_signature.py',
          'pyglove/core/coding/function_generation.py', 'pyglove/core/symbolic/object.py']
@@ -408,6 +408,63 @@ def rule_i(ctx):
          rs.loc, '; '.join(problems))
 
 
+RAW_READS = ('items', 'values', 'sym_items', 'sym_values', 'sym_getattr', '_sym_getattr')
+ARG_STORES = ('self._sym_attributes', 'self.sym_init_args')
+
+
+def rule_j(ctx):
+  """What the user's callable receives is what the attributes report: bound
+  arguments are read through the inferring accessors (sym_inferred / [] /
+  dict(mapping)), never through the stored-value views, which hand out
+  pg.Ref and other inferential wrappers."""
+  idx = ctx.index
+  for q in (FN + '_parse_call_time_overrides',
+            'pyglove.core.symbolic.class_wrapper._SubclassedWrapperBase._call_init'):
+    f = idx.func(q)
+    raw = []
+    reads = 0
+    for n in ast.walk(f.node):
+      if isinstance(n, ast.Attribute) and A.unparse(n) in ARG_STORES:
+        reads += 1
+      if isinstance(n, ast.Call) and isinstance(n.func, ast.Attribute) and n.func.attr in RAW_READS \
+          and A.unparse(n.func.value) in ARG_STORES + ('self',):
+        if A.unparse(n.func.value) == 'self' and n.func.attr not in ('sym_items', 'sym_values', 'sym_getattr', '_sym_getattr'):
+          continue
+        raw.append(f'line {n.lineno}: `{A.unparse(n, 70)}` yields the stored (un-inferred) values')
+    ctx.ob('C18.j', f.fq, reads > 0 and not raw,
+           'arguments handed to the user callable are read through the inferring accessors, as attribute access reads them',
+           f.loc, '; '.join(raw) or 'the bound arguments are not read here any more')
+
+
+def rule_k(ctx):
+  """Functor.__delattr__: removing the stored value notifies _on_change, which
+  maintains the argument sets for an update; the explicit bookkeeping of the
+  deletion must come after it, or it is overwritten."""
+  idx = ctx.index
+  f = idx.func(FN + '__delattr__')
+  g = C.cfg_of(f.node)
+  dels = [k for k in g.nodes if k.kind == 'stmt' and isinstance(k.ast, ast.Delete)
+          and any('self._sym_attributes' in A.unparse(t) for t in k.ast.targets)]
+  dels += [k for k in g.nodes if k.ast is not None and any(
+      A.call_name(c) in ('self._sym_attributes.pop', 'self.sym_rebind', 'self.rebind', 'self._sym_attributes.__delitem__')
+      for c in k.calls())]
+  SETS = ('self._specified_args', 'self._non_default_args', 'self._default_args')
+  books = [k for k in g.nodes if k.ast is not None and any(
+      isinstance(c.func, ast.Attribute) and A.unparse(c.func.value) in SETS and c.func.attr in ('add', 'discard', 'remove')
+      for c in k.calls())]
+  problems = []
+  if not dels:
+    problems.append('the stored value is not removed')
+  if not books:
+    problems.append('the argument sets are not maintained')
+  for k in books:
+    if dels and g.can_skip(g.entry, lambda n: n in dels, to=k) is not None:
+      problems.append(f'line {k.ast.lineno}: `{A.unparse(k.ast, 60)}` runs before the removal, whose change '
+                      f'notification then rewrites the sets')
+  ctx.ob('C18.k', f.fq, not problems,
+         'the deletion of a bound argument precedes the bookkeeping of the argument sets', f.loc, '; '.join(problems))
+
+
 def run(ctx):
   ctx.consult(*FILES)
   rule_a(ctx)
@@ -419,4 +476,6 @@ def run(ctx):
   rule_g(ctx)
   rule_h(ctx)
   rule_i(ctx)
+  rule_j(ctx)
+  rule_k(ctx)
   ctx.assume('agreement with the interpreter\'s argument binding is differential by nature: not decided')
